@@ -62,6 +62,24 @@ def gen_operator(rng, kind=None):
             "sq": bool(m == n and rng.integers(0, 2))}
 
 
+def scaled(desc, k):
+    """the same operator multiplied by 2^k (exact in binary arithmetic)"""
+    f = float(2.0 ** k)
+    d = dict(desc)
+    for key in ("d", "dre", "dim", "A", "Are", "Aim", "W"):
+        if key in d:
+            d[key] = (np.asarray(d[key], dtype=np.float64) * f).tolist()
+    if "c" in d:
+        d["c"] = d["c"] * f
+    if d["kind"] == "jacobian" and d.get("sq"):
+        d["sq"] = False  # keep the map homogeneous in W
+        d["unscaled_sq_dropped"] = True
+    d["scale_k"] = int(k)
+    if d.get("flavour") == "identity":
+        d["flavour"] = "scaled"
+    return d
+
+
 def dense(desc):
     """the dense matrix of the operator described by `desc` (numpy; complex where the operator is)"""
     k = desc["kind"]
